@@ -108,6 +108,9 @@ def run_tlc(name, module, cfg=None, workers=4, extra=None, env=None, timeout=360
         m = RE_STATES.match(line)
         if m:
             r.generated, r.distinct = int(m.group(1)), int(m.group(2))
+        ms = re.match(r"The number of states generated: (\d+)", line)      # simulation mode
+        if ms:
+            r.generated = r.distinct = int(ms.group(1))
         if line.startswith("Error:") or "*** Errors" in line or "Exception" in line:
             r.errors.append(line)
         m3 = re.match(r"Error: Invariant (\S+) is violated", line)
